@@ -26,7 +26,7 @@ logger = logging.getLogger(__name__)
 #------------------------------------------------------------------------------
 
 def _concat(arrs, axis=0, dtype=None):
-    dtype = dtype or arrs[0].dtype
+    dtype = arrs[0].dtype if dtype is None else dtype
     return np.concatenate(arrs).astype(dtype)
 
 
@@ -43,8 +43,10 @@ def _int_dtype(dtype, max_value):
 
 def _load_multiple_spike_times(*spike_times_l):
     """Load multiple spike_times arrays and merge them into a single one."""
-    # We concatenate all spike times arrays.
-    spike_times_concat = _concat(spike_times_l)
+    # We concatenate all spike times arrays, keeping the dtype of the first one unless it cannot
+    # hold the largest spike time.
+    dtype = _int_dtype(spike_times_l[0].dtype, max(int(np.max(st)) for st in spike_times_l))
+    spike_times_concat = _concat(spike_times_l, dtype=dtype)
     # We sort by increasing time.
     spike_order = np.argsort(spike_times_concat, kind='stable')
     spike_times_ordered = spike_times_concat[spike_order]
